@@ -41,6 +41,18 @@ NOTHING_SCRIPTS = [
 ]
 
 
+SCOPE_FORMS = [
+    # a parameter stays visible for the whole body, also after a `set ... begin ... end` block
+    ('define f with x begin set "M" begin stage row 0 end println x set "M" row x end f 1', [1, '\n']),
+    ('define f with x y begin set "M" begin hue y stage row x end print {x + y} end f 1 2 print 9', [3, 9]),
+    # a parameter hides a global of the same name, whether that global is a variable or a constant
+    ('define x 5 define f with x begin println x end f 7 println x', [7, '\n', 5, '\n']),
+    ('define x 5 define f with x begin return {x + 1} end print [f 10]', [11]),
+    ('define lamp "A" define f with lamp begin print lamp end f "B" print lamp', ['B', 'A']),
+    ('assign x 5 define f with x begin assign x {x * 2} return x end print [f 4] print x', [8, 5]),
+]
+
+
 def nothing_worker(args):
     """The result of a routine that returns nothing, passed as an argument whose parameter has the name of a global:
     inside the routine the parameter shows what `println [g]` shows at top level, never the global's value."""
@@ -68,6 +80,7 @@ def nothing_worker(args):
             res.violation('nothing|parameter shows the global', 'printed %r%s: the parameter x should show what `println [g]` shows (first item), and the global stays 7 (last item)\n  script: %s'
                           % (outs, ' (%s)' % net.aborted if net.aborted else '', text), inputs={'script': text}, replayed=True)
     world.install_real_mode()
+    common.fixed_scripts(res, 'scope-forms', SCOPE_FORMS)
     res.sample({'scripts': NOTHING_SCRIPTS})
     res.functions = world.functions_seen()
     return res
